@@ -40,6 +40,9 @@ type ReadWrite struct {
 	header     carv2.Header
 
 	finalized bool // also protected by ronly.mu
+	// writeErr is set when a failed write left a partial section behind that could not be
+	// removed; nothing more can be written or finalized then. Also protected by ronly.mu.
+	writeErr error
 
 	opts carv2.Options
 }
@@ -202,6 +205,9 @@ func (b *ReadWrite) PutMany(ctx context.Context, blks []blocks.Block) error {
 	if b.finalized {
 		return errFinalized
 	}
+	if b.writeErr != nil {
+		return b.writeErr
+	}
 
 	for _, bl := range blks {
 		c := bl.Cid()
@@ -221,6 +227,13 @@ func (b *ReadWrite) PutMany(ctx context.Context, blks []blocks.Block) error {
 
 		n := uint64(b.dataWriter.Position())
 		if err := util.LdWrite(b.dataWriter, c.Bytes(), bl.RawData()); err != nil {
+			if b.dataWriter.Position() != int64(n) {
+				// Part of the section reached the file: cut it off and move the writer back, so
+				// that the payload ends with the last complete section again.
+				if rerr := b.dataWriter.Rewind(int64(n)); rerr != nil {
+					b.writeErr = fmt.Errorf("cannot remove partially written section: %w", rerr)
+				}
+			}
 			return err
 		}
 		b.idx.InsertNoReplace(c, n)
@@ -268,6 +281,9 @@ func (b *ReadWrite) FinalizeReadOnly() error {
 }
 
 func (b *ReadWrite) finalizeReadOnlyWithoutMutex() error {
+	if b.writeErr != nil {
+		return b.writeErr
+	}
 	if b.opts.WriteAsCarV1 {
 		// all blocks are already properly written to the CARv1 inner container and there's
 		// no additional finalization required at the end of the file for a complete v1
